@@ -15,7 +15,7 @@ from . import _vol as V
 PROPERTY = "C16"
 MODULES = ["volume_reader", "transform", "sharded_base", "data_types"]
 
-FUNCTIONS = ["volume_reader.nibabel_image_to_info", "volume_reader.store_nibabel_image_to_fullres_info",
+FUNCTIONS = ["volume_reader.nibabel_image_to_info", "volume_reader.store_nibabel_image_to_fullres_info (incl. repeated runs into one directory)",
              "transform.nifti_to_neuroglancer_transform", "transform.matrix_as_compact_urlsafe_json", "sharded_base.ShardSpec.to_dict (sharding option)",
              "data_types.get_dtype"]
 STUBS = ["nibabel image -> fake image; nibabel.affines.voxel_sizes -> returns the enumerated voxel sizes and constrains the "
@@ -57,6 +57,8 @@ def configs(tier, seed):
         out.append(dict(harness="compact", base=base, sym=[[[n % 3, (n * 2 + 1) % 4], k]], digits=digits, cost=2))
     out.append(dict(harness="compact", base=base, sym=[[[0, 0], 0], [[2, 3], 7]], digits=3, cost=4))
     out.append(dict(harness="compact", base=base, sym=[[[1, 1], -14], [[3, 0], 2]], digits=3, cost=4))
+    out.append(dict(harness="store", volumes=[[[1.0, 2.0, 0.5], [3.0, -4.0, 8.0]], [[2.0, 2.0, 2.0], [0.0, 16.0, -1.0]]], cost=1))
+    out.append(dict(harness="store", volumes=[[[0.5, 0.5, 4.0], [0.0, 0.0, 0.0]], [[0.5, 0.5, 4.0], [10.0, 0.0, 0.0]], [[1.0, 1.0, 1.0], [0.0, 0.0, 0.0]]], cost=1))
     out.append(dict(harness="reprmodel", Ds=[0, 1, -1, 5, 10, 12, 25, 100, 101, 120, 999, 1000, 1234, -4050, 99999, 100000, 123456, 1234567, 9007199, 123456789012345], cost=1))
     return out
 
@@ -283,6 +285,63 @@ def H_transform(ctx, cfg):
               "second-generation-from-the-same-image-gives-the-same-metadata")
 
 
+def _pair_consistent(info_text, transform_text):
+    """exact check (rationals) that transform.json places the volume described by info_fullres.json: returns the affine
+    (mm) the pair encodes, or None when the two files do not belong together"""
+    from fractions import Fraction
+    info = json.loads(info_text)
+    M = [[Fraction(x) for x in row] for row in json.loads(transform_text)]
+    res = [Fraction(x) for x in info["scales"][0]["resolution"]]
+    # transform * ((i + 1/2) * res) == 10^6 * A * i  for all i  <=>  A[:, c] = M[:, c] * res[c] / 10^6 and
+    # A[:, 3] = (M[:, 3] + sum_c M[:, c] * res[c] / 2) / 10^6; the voxel size implied by A's columns must be res / 10^6
+    A = [[M[r][c] * res[c] / 1000000 for c in range(3)] + [(M[r][3] + sum(M[r][c] * res[c] / 2 for c in range(3))) / 1000000] for r in range(3)]
+    for c in range(3):
+        if sum(A[r][c] ** 2 for r in range(3)) != (res[c] / 1000000) ** 2:
+            return None
+    return A
+
+
+def H_store(ctx, cfg):
+    """--generate-info twice into one directory for volumes with different geometry: whatever the second run does
+    (refuse or replace), info_fullres.json and transform.json on disk must describe the same volume afterwards."""
+    from fractions import Fraction
+    W = V.World()
+
+    class VRNP(type(W.npx)):
+        def empty(self, *a, **k):          # only the 4x4 transform matrix is allocated in volume_reader (concrete here)
+            return real_np.empty(*a, **k)
+    vrnp = VRNP()
+    vrnp.asanyarray = W.npx.asanyarray
+    load.patch("volume_reader", np=vrnp)
+    load.patch("transform", np=real_np)
+    acc = W.accessor("/mfs/gen", {})
+    imgs = []
+    for vs, t in cfg["volumes"]:
+        affine = real_np.diag([vs[0], vs[1], vs[2], 1.0])
+        affine[:3, 3] = t
+        raw = SArray.from_elems([SIV(z3.IntVal(0), "uint8")] * 8, "uint8", (2, 2, 2))
+        imgs.append((V.FakeImage(raw, affine=affine), affine))
+    ctx.input("volumes", cfg["volumes"])
+    seen = []
+    for k, (img, affine) in enumerate(imgs):
+        rc = W.vr.store_nibabel_image_to_fullres_info(img, acc)
+        files = W.env.fs.files
+        it, tt = files.get("/mfs/gen/info_fullres.json"), files.get("/mfs/gen/transform.json")
+        ctx.prove(it is not None and tt is not None, f"run-{k}-both-files-present", detail=f"rc={rc}")
+        if it is None or tt is None:
+            return
+        A = _pair_consistent(bytes(it.concrete()).decode(), bytes(tt.concrete()).decode())
+        ctx.prove(A is not None, f"run-{k}-transform-and-info-describe-the-same-volume", detail=f"rc={rc}")
+        if A is None:
+            return
+        known = [[[Fraction(float(x)) for x in a[r]] for r in range(3)] for _, a in imgs[:k + 1]]
+        ctx.prove(A in known, f"run-{k}-stored-pair-is-one-of-the-volumes-given", detail=f"rc={rc}")
+        if rc in (0, None) and k == 0:
+            ctx.prove(A == known[0], "first-run-describes-the-first-volume")
+        seen.append(rc)
+    ctx.sample(dict(return_codes=seen))
+
+
 def H_info(ctx, cfg):
     vs = (1.0, 2.0, 0.5)
     W = _world(vs)
@@ -324,6 +383,26 @@ def replay(cfg, cex):
     import nibabel
     from fractions import Fraction
     vr = load.mod("volume_reader")
+    if cfg["harness"] == "store":
+        import os
+        import tempfile
+        acc_mod = load.mod("accessor")
+        with tempfile.TemporaryDirectory() as td:
+            acc = acc_mod.get_accessor_for_url(td, {})
+            for k, (vs, t) in enumerate(cfg["volumes"]):
+                A = real_np.diag([vs[0], vs[1], vs[2], 1.0])
+                A[:3, 3] = t
+                img = nibabel.Nifti1Image(real_np.zeros((2, 2, 2), dtype=real_np.uint8), A)
+                rc = vr.store_nibabel_image_to_fullres_info(img, acc)
+                try:
+                    it = open(os.path.join(td, "info_fullres.json")).read()
+                    tt = open(os.path.join(td, "transform.json")).read()
+                except OSError as e:
+                    return True, f"run {k} (rc={rc}): {e}"
+                if _pair_consistent(it, tt) is None:
+                    return True, (f"after run {k} (rc={rc}) info_fullres.json states resolution {json.loads(it)['scales'][0]['resolution']} "
+                                  f"but transform.json {tt} places another volume")
+        return False, "stored pairs stay consistent on the real code"
     if cfg["harness"] == "reprmodel":
         bad = cex["inputs"].get("bad")
         return bool(bad), f"repr model differs from CPython: {bad}"
